@@ -235,6 +235,62 @@ def replay_context(names, stored):
     return False
 
 
+def ob_context_foreign(schemes, stored, pos, disabled_pos):
+    """the embedded original need not belong to a scheme of this context (accounts migrated between configurations): disable()
+    embeds whatever it is given and enable() gives exactly that back"""
+    from passlib.context import CryptContext
+    names = list(schemes)
+    names.insert(disabled_pos, "unix_disabled")
+    tmpl = _templates()[stored]
+    ch = z3.BitVec("c", 21)
+    h = SStr(list(tmpl[:pos]) + [ch] + list(tmpl[pos + 1:]), [1] * len(tmpl))
+    same = ch == ord(tmpl[pos])
+
+    def run():
+        sym.assume(same)
+        ctx = CryptContext(names)
+        d = ctx.disable(h)
+        return {"d": d, "enabled_d": ctx.is_enabled(d), "verify": ctx.verify("pw", d), "again": ctx.disable(d), "enable": ctx.enable(d)}
+    with patched(*_patches()):
+        paths = explore(run, max_paths=400)
+    for pth in paths:
+        if pth.exc is not None:
+            return _fviol(names, stored, "raises %r" % (pth.exc,))
+        o = pth.result
+        claims = [z3.BoolVal(o["enabled_d"] is False), z3.BoolVal(o["verify"] is False), _eq(o["again"], o["d"]), _eq(o["enable"], h)]
+        r, m = valid(z3.And(*claims), pth.cond())
+        if r == "sat":
+            bad = [i for i, c in enumerate(claims) if check(pth.cond(), z3.Not(c))[0] == "sat"]
+            return _fviol(names, stored, "claims %s fail: disable -> %r, enable -> %r" % (bad, _show(o["d"], m), _show(o["enable"], m)))
+        if r != "unsat":
+            return inconclusive("solver %s" % r)
+    return ok("context %s, embedded original of the foreign scheme %s: stays disabled, never verifies, enable gives it back" % (names, stored),
+              paths=len(paths))
+
+
+def _fviol(names, stored, what):
+    return violation("CryptContext(%s) disable/enable of a %s hash (scheme not in the context): %s" % (names, stored, what),
+                     "disable:context-foreign:%s" % stored,
+                     {"module": "harness.c18", "func": "replay_context_foreign", "args": {"names": names, "stored": stored}})
+
+
+def replay_context_foreign(names, stored):
+    from passlib.context import CryptContext
+    ctx = CryptContext(names)
+    h = _templates()[stored]
+    try:
+        d = ctx.disable(h)
+        if ctx.is_enabled(d) or ctx.verify("pw", d):
+            return "disabled entry %r verifies / is reported enabled" % d
+        if ctx.disable(d) != d:
+            return "disabling twice changes the entry"
+        if ctx.enable(d) != h:
+            return "enable(disable(%r)) = %r" % (h, ctx.enable(d))
+    except Exception as e:
+        return "raises %r" % (e,)
+    return False
+
+
 def ob_verify_none():
     from passlib.context import CryptContext
     import passlib.context as C
@@ -286,6 +342,12 @@ def run(tier, seed, t0, only=None):
             for pos in ((0, tl - 1) if tier == "quick" else (0, 1, 3, tl // 2, tl - 1)):
                 obs.append(Ob("context[stored=%s,pos=%d,disabled@%d]" % (stored, pos, dp), ob_context,
                               {"schemes": schemes, "stored": stored, "pos": pos, "disabled_pos": dp}, timeout=900))
+    for stored in ("md5_crypt", "ldap_salted_sha1", "sha256_crypt"):
+        others = [x for x in schemes if x != stored and x != "mysql41"]
+        tl = len(_templates_len(stored))
+        for dp in (0, len(others)):
+            obs.append(Ob("context-foreign[stored=%s,disabled@%d]" % (stored, dp), ob_context_foreign,
+                          {"schemes": others, "stored": stored, "pos": tl - 1, "disabled_pos": dp}, timeout=900))
     obs.append(Ob("verify-none+django", ob_verify_none, timeout=300))
     if only:
         obs = [o for o in obs if only in o.name]
